@@ -39,6 +39,7 @@ FN = {0: "value", 1: "f", 2: "g", 3: "kids", 4: "m", 5: "s", 10: "trait_added", 
       14: "groups",            # a Dict(Str, List(Instance)): nested containers (dict object: pseudo-field 17)
       15: "kidsI"}             # a List declared with comparison_mode=identity (list object: pseudo-field 18)
 NF = {v: k for k, v in FN.items()}
+NF.update({"x1_items": 12, "x2_items": 13})
 
 
 def match_fg(name, trait):
@@ -157,9 +158,12 @@ def build_expr(g, hetero=False):
 
 
 class World:
-    def __init__(self, npool, falsy=False, eqcls=False, dictkind=()):
+    def __init__(self, npool, falsy=False, eqcls=False, dictkind=(), itemsname=False):
         LAZY.clear()             # keyed by id(): nothing of an earlier case may survive into this one
         EQKEY.clear()
+        # itemsname: the dynamic traits are GENUINE traits whose names end in '_items' (add_trait('x2_items', ...));
+        # only used with named observers (HasTraits.traits() leaves such instance traits out, so filters differ)
+        FN[12], FN[13] = ("x1_items", "x2_items") if itemsname else ("x1", "x2")
         self.pool = [pool_class(falsy, eqcls, i in dictkind)() for i in range(npool)]
         self.order = {}          # cid -> keys in positional order, for a `kids` container that is a dict
         self.atom = {id(o): i for i, o in enumerate(self.pool)}
@@ -298,6 +302,9 @@ class World:
             if len(op) > 4 and op[4] == "del":      # del o.f: back to the default (None), with notification
                 delattr(self.pool[o], FN[f])
             else:
+                if len(op) > 4 and op[4] == "eq":   # the fresh object compares equal (by value) to the one it replaces
+                    old = self.pool[o].__dict__.get(FN[f])
+                    EQKEY[id(self.pool[v])] = EQKEY.get(id(old), id(old))
                 setattr(self.pool[o], FN[f], None if v is None else self.pool[v])
         elif k == "SetCont":
             o, f, items = op[1:4]
@@ -469,6 +476,9 @@ class World:
                         cont ^= other
                     else:
                         cont.symmetric_difference_update(other)
+                elif meth == "intersect2":
+                    # intersection_update with SEVERAL iterables: members missing from any of them are removed
+                    cont.intersection_update(*[{self.pool[a] for a in it} for it in args])
                 elif meth == "add":
                     cont.add(self.pool[args[0]])
                 elif meth == "discard":
@@ -494,7 +504,8 @@ class World:
 
 
 def run_case(case):
-    w = World(case["npool"], bool(case.get("falsy")), bool(case.get("eqcls")), set(case.get("dictkind") or ()))
+    w = World(case["npool"], bool(case.get("falsy")), bool(case.get("eqcls")), set(case.get("dictkind") or ()),
+              bool(case.get("itemsname")))
     hist = []
     prev_heap, prev_hooks = None, None
     for op in case["ops"]:
